@@ -104,13 +104,15 @@ func (g *G) Addr() net.IP {
 
 func (g *G) secs() (time.Duration, uint64) {
 	var s uint32
-	switch g.R.IntN(5) {
+	switch g.R.IntN(7) {
 	case 0:
 		s = 0
 	case 1:
 		s = 0xffffffff
 	case 2:
 		s = uint32(g.R.UintN(100000))
+	case 3:
+		s = 0xffffffff - uint32(g.R.UintN(3)) // infinity and its neighbours
 	default:
 		s = g.R.Uint32()
 	}
@@ -237,7 +239,17 @@ func (g *G) hwAddr(maxLen int) (uint16, []byte) {
 	case 0:
 		real := [][2]int{{1, 6}, {6, 6}, {27, 8}, {32, 20}, {24, 8}, {15, 2}, {20, 1}, {32, 8}, {1, 20}}
 		p := real[g.R.IntN(len(real))]
-		return uint16(p[0]), g.bytes(min(p[1], maxLen))
+		ll := g.bytes(min(p[1], maxLen))
+		if g.R.IntN(3) == 0 { // an EUI-64 made from a MAC (ff:fe in the middle), whole or cut short / extended by an octet
+			ll = g.bytes(min(6+g.R.IntN(4), maxLen))
+			if len(ll) >= 5 {
+				ll[3], ll[4] = 0xff, 0xfe
+			}
+			if g.R.IntN(2) == 0 {
+				return 27, ll
+			}
+		}
+		return uint16(p[0]), ll
 	case 1:
 		return uint16(g.R.UintN(40)), g.bytes(g.boundLen(maxLen))
 	}
@@ -418,6 +430,8 @@ func (g *G) Option(code int, depth int) (dhcpv6.Option, *tree.Node) {
 			cs = 0
 		case 1:
 			cs = 65535
+		case 2: // the last values before the field saturates
+			cs = 65535 - R.IntN(64)
 		}
 		return dhcpv6.OptElapsedTime(time.Duration(cs) * 10 * time.Millisecond), tree.N("elapsed").U("cs", uint64(cs))
 	case 9:
